@@ -41,7 +41,15 @@ const (
 	pRevList  // sort.Reverse(sort.IntSlice(list i))
 	pFunc     // a function value (fn)
 	pSym      // an unknown that must be decided consistently along a path: receiver field i (b: negated)
-	pNonNil   // an interface / pointer / error known not to be nil (refined on the edge of a nil test)
+	pStr       // a string constant (s)
+	pObj       // pointer to a struct object on the heap (i: object id)
+	pFieldAddr // address of field j of object i
+	pStructVal // a struct value: a private copy on the heap (i: object id)
+	pMap       // a map on the heap (i: map id)
+	pIter      // a map iterator (i: iterator id)
+	pAbs       // an abstract value the client names (i: id, s: label): an operator, a tensor, ...
+	pHookFn    // a function value whose calls go to the client (i: id)
+	pNonNil    // an interface / pointer / error known not to be nil (refined on the edge of a nil test)
 	pPoison   // a value the walk once knew and lost (forgotten list, disagreeing callee paths): never branch on it
 )
 
@@ -52,18 +60,107 @@ type pval struct {
 	b   bool
 	dep bool // derives from the seeded user value
 	fn  *ssa.Function
+	m   int64 // pShaped: heap id of the tensor's content as a list of source positions (0: not tracked)
+	s   string
+}
+
+type pobj struct {
+	fields map[int]pval
+}
+
+type pmap struct {
+	keys, vals []pval
+}
+
+type piter struct {
+	m   int64
+	pos int
 }
 
 type pheap struct {
 	lists  map[int64][]pval // nil entry: content unknown
 	poison map[int64]bool   // lists whose content was known and forgotten
+	objs   map[int64]*pobj
+	maps   map[int64]*pmap
+	iters  map[int64]*piter
 	next   int64
 }
 
+func newHeap() *pheap {
+	return &pheap{lists: map[int64][]pval{}, poison: map[int64]bool{}, objs: map[int64]*pobj{}, maps: map[int64]*pmap{}, iters: map[int64]*piter{}}
+}
+
+func (h *pheap) newObj() pval {
+	h.next++
+	if h.objs == nil {
+		h.objs = map[int64]*pobj{}
+	}
+	h.objs[h.next] = &pobj{fields: map[int]pval{}}
+	return pval{k: pObj, i: h.next}
+}
+
+func (h *pheap) newMap() pval {
+	h.next++
+	if h.maps == nil {
+		h.maps = map[int64]*pmap{}
+	}
+	h.maps[h.next] = &pmap{}
+	return pval{k: pMap, i: h.next}
+}
+
+func sameKey(a, b pval) bool {
+	if a.k != b.k {
+		return false
+	}
+	switch a.k {
+	case pStr:
+		return a.s == b.s
+	case pInt, pObj, pAbs:
+		return a.i == b.i
+	case pBool:
+		return a.b == b.b
+	}
+	return false
+}
+
+func (m *pmap) get(k pval) (pval, bool) {
+	for i, x := range m.keys {
+		if sameKey(x, k) {
+			return m.vals[i], true
+		}
+	}
+	return pval{}, false
+}
+
+func (m *pmap) set(k, v pval) {
+	for i, x := range m.keys {
+		if sameKey(x, k) {
+			m.vals[i] = v
+			return
+		}
+	}
+	m.keys = append(m.keys, k)
+	m.vals = append(m.vals, v)
+}
+
 func (h *pheap) clone() *pheap {
-	n := &pheap{lists: make(map[int64][]pval, len(h.lists)), poison: make(map[int64]bool, len(h.poison)), next: h.next}
+	n := &pheap{lists: make(map[int64][]pval, len(h.lists)), poison: make(map[int64]bool, len(h.poison)), next: h.next,
+		objs: make(map[int64]*pobj, len(h.objs)), maps: make(map[int64]*pmap, len(h.maps)), iters: make(map[int64]*piter, len(h.iters))}
 	for k := range h.poison {
 		n.poison[k] = true
+	}
+	for k, o := range h.objs {
+		c := &pobj{fields: make(map[int]pval, len(o.fields))}
+		for f, v := range o.fields {
+			c.fields[f] = v
+		}
+		n.objs[k] = c
+	}
+	for k, m := range h.maps {
+		n.maps[k] = &pmap{keys: append([]pval{}, m.keys...), vals: append([]pval{}, m.vals...)}
+	}
+	for k, it := range h.iters {
+		n.iters[k] = &piter{m: it.m, pos: it.pos}
 	}
 	for k, v := range h.lists {
 		if v != nil {
@@ -97,7 +194,12 @@ type pinterp struct {
 	onLib     func(fn *ssa.Function, call *ssa.Call, callee *ssa.Function, args []pval, h *pheap)
 	onDyn     func(fn *ssa.Function, call *ssa.Call, args []pval, h *pheap) ([]pval, bool) // call through a function value
 	onReduce  func(fn *ssa.Function, call *ssa.Call, name string, shape []int64, axes []int64)  // a gorgonia reduction on a tensor of known shape
+	onRepeat  func(fn *ssa.Function, call *ssa.Call, shape []int64, axis, n int64)              // tensor.Repeat on a tensor of known shape
+	onInvoke  func(fn *ssa.Function, call *ssa.Call, recv pval, method string, args []pval, h *pheap) ([]pval, bool)
+	onStore   func(fn *ssa.Function, in ssa.Instruction, obj int64, field int) // a field of a heap object is written
+	visited   map[*ssa.Function]bool
 	decided   int // branches on a known condition that depends on the seed
+	objects   bool // model struct objects, maps and slices of arbitrary values (the interpreter tables of the Run plumbing)
 	hdrCache  map[*ssa.Function]bool
 	listReads int
 }
@@ -144,8 +246,12 @@ func (p *pinterp) run(fn *ssa.Function, args []pval, depth int, heap *pheap) ([]
 	if len(fn.Blocks) == 0 {
 		return nil, nil
 	}
+	if p.visited == nil {
+		p.visited = map[*ssa.Function]bool{}
+	}
+	p.visited[fn] = true
 	if heap == nil {
-		heap = &pheap{lists: map[int64][]pval{}, poison: map[int64]bool{}}
+		heap = newHeap()
 	}
 	forked := false
 	fr := &pframe{env: map[ssa.Value]pval{}, tuples: map[ssa.Value][]pval{}, visits: map[*ssa.BasicBlock]int{}, fields: map[int]pval{}, heap: heap, forked: &forked, syms: map[int64]bool{}}
@@ -174,7 +280,7 @@ func (p *pinterp) run(fn *ssa.Function, args []pval, depth int, heap *pheap) ([]
 	var okPaths []presult
 	nErr := 0
 	for _, r := range results {
-		if ei >= 0 && r.vals[ei].k == pNonNil {
+		if ei >= 0 && nonNilKind(r.vals[ei].k) {
 			nErr++
 		} else {
 			okPaths = append(okPaths, r)
@@ -201,7 +307,7 @@ func (p *pinterp) run(fn *ssa.Function, args []pval, depth int, heap *pheap) ([]
 	for i := 0; i < n; i++ {
 		v := results[0].vals[i]
 		for _, r := range results[1:] {
-			if r.vals[i].k != v.k || r.vals[i].i != v.i || r.vals[i].b != v.b || r.vals[i].j != v.j || v.k == pList || v.k == pShaped {
+			if r.vals[i].k != v.k || r.vals[i].i != v.i || r.vals[i].b != v.b || r.vals[i].j != v.j || r.vals[i].s != v.s || v.k == pList || v.k == pShaped {
 				v = pval{k: pPoison}
 				break
 			}
@@ -231,6 +337,8 @@ func (p *pinterp) val(fr *pframe, v ssa.Value) pval {
 			}
 		case constant.Bool:
 			return pval{k: pBool, b: constant.BoolVal(k.Value)}
+		case constant.String:
+			return pval{k: pStr, s: constant.StringVal(k.Value)}
 		}
 		return pval{}
 	}
@@ -305,6 +413,10 @@ outer:
 							fr.env[x] = pval{k: pBool, b: r, dep: dep}
 						}
 					}
+				case a.k == pStr && b.k == pStr && (x.Op == token.EQL || x.Op == token.NEQ):
+					fr.env[x] = pval{k: pBool, b: (a.s == b.s) == (x.Op == token.EQL)}
+				case (a.k == pObj || a.k == pAbs) && a.k == b.k && (x.Op == token.EQL || x.Op == token.NEQ):
+					fr.env[x] = pval{k: pBool, b: (a.i == b.i) == (x.Op == token.EQL)}
 				case a.k == pBool && b.k == pBool:
 					dep := a.dep || b.dep
 					switch x.Op {
@@ -326,7 +438,7 @@ outer:
 					switch o.k {
 					case pNil:
 						fr.env[x] = pval{k: pBool, b: x.Op == token.EQL}
-					case pTensor, pList, pShape, pData, pRecv, pInputs, pShaped, pNonNil, pFunc:
+					case pTensor, pList, pShape, pData, pRecv, pInputs, pShaped, pNonNil, pFunc, pObj, pMap, pAbs, pHookFn, pStr:
 						fr.env[x] = pval{k: pBool, b: x.Op == token.NEQ}
 					}
 				}
@@ -351,6 +463,29 @@ outer:
 					switch a.k {
 					case pPoison:
 						fr.env[x] = a
+						continue
+					case pFieldAddr:
+						if o := fr.heap.objs[a.i]; o != nil {
+							if v, ok := o.fields[int(a.j)]; ok {
+								if v.k != pUnknown {
+									fr.env[x] = v
+								}
+							} else if z, ok := zeroOf(x.Type()); ok {
+								fr.env[x] = z
+							}
+						}
+						continue
+					case pObj:
+						// *p of a struct: a private copy
+						if o := fr.heap.objs[a.i]; o != nil {
+							if _, isStruct := x.Type().Underlying().(*types.Struct); isStruct {
+								c := fr.heap.newObj()
+								for f, v := range o.fields {
+									fr.heap.objs[c.i].fields[f] = v
+								}
+								fr.env[x] = pval{k: pStructVal, i: c.i}
+							}
+						}
 						continue
 					case pElemAddr:
 						if l := fr.heap.lists[a.i]; l != nil && a.j >= 0 && a.j < int64(len(l)) && l[a.j].k != pUnknown {
@@ -406,26 +541,36 @@ outer:
 				}
 			case *ssa.Alloc:
 				delete(fr.env, x)
+				fr.env[x] = pval{k: pNonNil}
 				if pt, ok := x.Type().Underlying().(*types.Pointer); ok {
-					if at, ok := pt.Elem().Underlying().(*types.Array); ok && at.Len() <= 64 {
-						l := make([]pval, at.Len())
-						if isIntType(at.Elem()) {
-							for i := range l {
-								l[i] = pval{k: pInt}
+					switch et := pt.Elem().Underlying().(type) {
+					case *types.Array:
+						if et.Len() <= 64 {
+							l := make([]pval, et.Len())
+							if z, ok := zeroOf(et.Elem()); ok {
+								for i := range l {
+									l[i] = z
+								}
 							}
+							fr.env[x] = fr.heap.alloc(l)
 						}
-						fr.env[x] = fr.heap.alloc(l)
+					case *types.Struct:
+						fr.env[x] = fr.heap.newObj()
 					}
 				}
 			case *ssa.MakeSlice:
 				delete(fr.env, x)
-				if st, ok := x.Type().Underlying().(*types.Slice); ok && isIntType(st.Elem()) {
+				if st, ok := x.Type().Underlying().(*types.Slice); ok {
 					if n := p.val(fr, x.Len); n.k == pInt && n.i >= 0 && n.i <= 64 {
 						l := make([]pval, n.i)
-						for i := range l {
-							l[i] = pval{k: pInt}
+						if z, ok := zeroOf(st.Elem()); ok {
+							for i := range l {
+								l[i] = z
+							}
 						}
-						fr.env[x] = fr.heap.alloc(l)
+						if isIntType(st.Elem()) || p.objects {
+							fr.env[x] = fr.heap.alloc(l)
+						}
 					}
 				}
 			case *ssa.IndexAddr:
@@ -464,13 +609,37 @@ outer:
 				}
 			case *ssa.FieldAddr:
 				delete(fr.env, x)
-				if b := p.val(fr, x.X); b.k == pShaped {
+				switch b := p.val(fr, x.X); b.k {
+				case pShaped:
 					fr.env[x] = b // &dense.AP and the like: still "that tensor"
+				case pObj:
+					fr.env[x] = pval{k: pFieldAddr, i: b.i, j: int64(x.Field)}
+				case pNil:
+					if p.objects {
+						p.panicAt(fn, x, "nil pointer dereference")
+						return
+					}
 				}
 			case *ssa.Index:
 				delete(fr.env, x)
 			case *ssa.Store:
 				switch ad := p.val(fr, x.Addr); ad.k {
+				case pFieldAddr:
+					if o := fr.heap.objs[ad.i]; o != nil {
+						o.fields[int(ad.j)] = p.val(fr, x.Val)
+						if p.onStore != nil {
+							p.onStore(fn, x, ad.i, int(ad.j))
+						}
+					}
+				case pObj:
+					if v := p.val(fr, x.Val); v.k == pStructVal {
+						if src, dst := fr.heap.objs[v.i], fr.heap.objs[ad.i]; src != nil && dst != nil {
+							dst.fields = make(map[int]pval, len(src.fields))
+							for f, fv := range src.fields {
+								dst.fields[f] = fv
+							}
+						}
+					}
 				case pElemAddr:
 					if l := fr.heap.lists[ad.i]; l != nil && ad.j < int64(len(l)) {
 						l[ad.j] = p.val(fr, x.Val)
@@ -478,6 +647,93 @@ outer:
 				default:
 					if fa, ok := x.Addr.(*ssa.FieldAddr); ok && p.val(fr, fa.X).k == pRecv {
 						fr.fields[fa.Field] = p.val(fr, x.Val)
+					}
+				}
+			case *ssa.MakeMap:
+				delete(fr.env, x)
+				if p.objects {
+					fr.env[x] = fr.heap.newMap()
+				}
+			case *ssa.MapUpdate:
+				if m := p.val(fr, x.Map); m.k == pMap {
+					if mm := fr.heap.maps[m.i]; mm != nil {
+						if k := p.val(fr, x.Key); k.k == pStr || k.k == pInt {
+							mm.set(k, p.val(fr, x.Value))
+						} else {
+							delete(fr.heap.maps, m.i) // an unknown key: the content is no longer known
+						}
+					}
+				}
+			case *ssa.Lookup:
+				delete(fr.env, x)
+				delete(fr.tuples, x)
+				if m := p.val(fr, x.X); m.k == pMap {
+					mm := fr.heap.maps[m.i]
+					k := p.val(fr, x.Index)
+					if mm == nil || (k.k != pStr && k.k != pInt) {
+						break
+					}
+					v, found := mm.get(k)
+					if !found {
+						v, _ = zeroOf(x.X.Type().Underlying().(*types.Map).Elem())
+					}
+					if x.CommaOk {
+						fr.tuples[x] = []pval{v, {k: pBool, b: found}}
+					} else if v.k != pUnknown {
+						fr.env[x] = v
+					}
+				} else if m.k == pNil {
+					// a nil map reads as empty
+					if mt, ok := x.X.Type().Underlying().(*types.Map); ok {
+						v, _ := zeroOf(mt.Elem())
+						if x.CommaOk {
+							fr.tuples[x] = []pval{v, {k: pBool, b: false}}
+						} else if v.k != pUnknown {
+							fr.env[x] = v
+						}
+					}
+				}
+			case *ssa.Range:
+				delete(fr.env, x)
+				switch m := p.val(fr, x.X); m.k {
+				case pMap:
+					if fr.heap.maps[m.i] != nil {
+						fr.heap.next++
+						fr.heap.iters[fr.heap.next] = &piter{m: m.i}
+						fr.env[x] = pval{k: pIter, i: fr.heap.next}
+					}
+				case pNil:
+					fr.heap.next++
+					fr.heap.iters[fr.heap.next] = &piter{m: -1}
+					fr.env[x] = pval{k: pIter, i: fr.heap.next}
+				}
+			case *ssa.Next:
+				delete(fr.env, x)
+				delete(fr.tuples, x)
+				if it := p.val(fr, x.Iter); it.k == pIter {
+					st := fr.heap.iters[it.i]
+					if st == nil {
+						break
+					}
+					mm := fr.heap.maps[st.m]
+					if st.m == -1 || (mm != nil && st.pos >= len(mm.keys)) {
+						fr.tuples[x] = []pval{{k: pBool, b: false}, {}, {}}
+					} else if mm != nil {
+						fr.tuples[x] = []pval{{k: pBool, b: true}, mm.keys[st.pos], mm.vals[st.pos]}
+						st.pos++
+					}
+				}
+			case *ssa.Field:
+				delete(fr.env, x)
+				if sv := p.val(fr, x.X); sv.k == pStructVal {
+					if o := fr.heap.objs[sv.i]; o != nil {
+						if v, ok := o.fields[x.Field]; ok {
+							if v.k != pUnknown {
+								fr.env[x] = v
+							}
+						} else if z, ok := zeroOf(x.Type()); ok {
+							fr.env[x] = z
+						}
 					}
 				}
 			case *ssa.Convert:
@@ -494,6 +750,12 @@ outer:
 				} else {
 					delete(fr.env, x)
 					delete(fr.tuples, x)
+					// a tensor asserted to the tensor interface (or to *Dense, which every gonnx tensor is)
+					if v := p.val(fr, x.X); v.k == pShaped || v.k == pTensor {
+						if isTensorish(x.AssertedType) {
+							fr.tuples[x] = []pval{v, {k: pBool, b: true}}
+						}
+					}
 				}
 			case *ssa.Slice:
 				delete(fr.env, x)
@@ -733,7 +995,15 @@ func (p *pinterp) call(fn *ssa.Function, fr *pframe, x *ssa.Call, depth int) {
 					} else if l == nil && fr.heap.poison[a.i] {
 						fr.env[x] = pval{k: pPoison}
 					}
-				case pInputs, pNil:
+				case pMap:
+					if mm := fr.heap.maps[a.i]; mm != nil && b.Name() == "len" {
+						fr.env[x] = pval{k: pInt, i: int64(len(mm.keys))}
+					}
+				case pNil:
+					if p.objects {
+						fr.env[x] = pval{k: pInt, i: 0}
+					}
+				case pInputs:
 				}
 			}
 		case "append":
@@ -790,6 +1060,24 @@ func (p *pinterp) call(fn *ssa.Function, fr *pframe, x *ssa.Call, depth int) {
 			p.onExt(fn, x, key, vals, fr.heap)
 		}
 	}
+	if cc.IsInvoke() && p.onInvoke != nil {
+		if rv := p.val(fr, cc.Value); rv.k == pAbs || rv.k == pObj {
+			args := make([]pval, len(cc.Args))
+			for i, a := range cc.Args {
+				args[i] = p.val(fr, a)
+			}
+			if res, ok := p.onInvoke(fn, x, rv, cc.Method.Name(), args, fr.heap); ok {
+				if len(res) == 1 {
+					if res[0].k != pUnknown {
+						fr.env[x] = res[0]
+					}
+				} else if len(res) > 1 {
+					fr.tuples[x] = res
+				}
+				return
+			}
+		}
+	}
 	name, recv := "", ssa.Value(nil)
 	if cc.IsInvoke() {
 		name, recv = cc.Method.Name(), cc.Value
@@ -804,6 +1092,14 @@ func (p *pinterp) call(fn *ssa.Function, fr *pframe, x *ssa.Call, depth int) {
 		if rv.k == pShaped {
 			// the tensor's own (live) shape slice
 			switch name {
+			case "Clone":
+				if l := fr.heap.lists[rv.j]; l != nil {
+					nv := pval{k: pShaped, i: rv.i, j: fr.heap.alloc(append([]pval{}, l...)).i}
+					if rv.m != 0 && fr.heap.lists[rv.m] != nil {
+						nv.m = fr.heap.alloc(append([]pval{}, fr.heap.lists[rv.m]...)).i
+					}
+					fr.env[x] = nv
+				}
 			case "Shape":
 				fr.env[x] = pval{k: pList, i: rv.j}
 			case "Dims":
@@ -897,6 +1193,9 @@ func (p *pinterp) call(fn *ssa.Function, fr *pframe, x *ssa.Call, depth int) {
 			}
 		}
 		if p.onDyn != nil && !cc.IsInvoke() {
+			if hv := p.val(fr, cc.Value); hv.k == pHookFn {
+				args = append([]pval{hv}, args...)
+			}
 			if res, ok := p.onDyn(fn, x, args, fr.heap); ok {
 				if len(res) == 1 {
 					fr.env[x] = res[0]
@@ -958,8 +1257,72 @@ func (p *pinterp) call(fn *ssa.Function, fr *pframe, x *ssa.Call, depth int) {
 			return
 		}
 	}
+	if (fnPkgPath(sc) == "fmt" || fnPkgPath(sc) == "errors") && sc.Signature.Results().Len() == 1 && isErrorType(sc.Signature.Results().At(0).Type()) {
+		fr.env[x] = pval{k: pNonNil}
+		return
+	}
 	if fnPkgPath(sc) == pkgTensor && sc.Signature.Recv() == nil {
 		switch sc.Name() {
+		case "Repeat":
+			// Repeat(t, axis, n...) multiplies the extent of the axis by n (every element n times in a row)
+			if len(cc.Args) == 3 {
+				t, ax := p.val(fr, cc.Args[0]), p.val(fr, cc.Args[1])
+				var n pval
+				switch r := p.val(fr, cc.Args[2]); r.k {
+				case pList:
+					if l := fr.heap.lists[r.i]; len(l) == 1 {
+						n = l[0]
+					}
+				case pInt:
+					n = r
+				}
+				if t.k == pShaped && ax.k == pInt && n.k == pInt {
+					if l := fr.heap.lists[t.j]; l != nil && ax.i >= 0 && ax.i < int64(len(l)) && l[ax.i].k == pInt {
+						shape := make([]int64, len(l))
+						okAll := true
+						for i, e := range l {
+							if e.k != pInt {
+								okAll = false
+							}
+							shape[i] = e.i
+						}
+						if okAll {
+							if p.onRepeat != nil {
+								p.onRepeat(fn, x, shape, ax.i, n.i)
+							}
+							nl := append([]pval{}, l...)
+							nl[ax.i] = pval{k: pInt, i: l[ax.i].i * n.i}
+							nv := pval{k: pShaped, i: t.i, j: fr.heap.alloc(nl).i}
+							// the data: every element along the axis n times in a row (numpy.repeat, which gorgonia's
+							// Repeat documents and implements)
+							if old := fr.heap.lists[t.m]; t.m != 0 && old != nil && n.i >= 0 {
+								outer, inner := int64(1), int64(1)
+								for _, e := range shape[:ax.i] {
+									outer *= e
+								}
+								for _, e := range shape[ax.i+1:] {
+									inner *= e
+								}
+								ext := shape[ax.i]
+								if int64(len(old)) == outer*ext*inner && outer*ext*inner*n.i <= 4096 {
+									nc := make([]pval, 0, outer*ext*inner*n.i)
+									for o := int64(0); o < outer; o++ {
+										for e := int64(0); e < ext; e++ {
+											for r := int64(0); r < n.i; r++ {
+												for i := int64(0); i < inner; i++ {
+													nc = append(nc, old[(o*ext+e)*inner+i])
+												}
+											}
+										}
+									}
+									nv.m = fr.heap.alloc(nc).i
+								}
+							}
+							fr.tuples[x] = []pval{nv, {k: pNil}}
+						}
+					}
+				}
+			}
 		case "WithShape":
 			if len(cc.Args) == 1 {
 				switch a := p.val(fr, cc.Args[0]); a.k {
@@ -1023,7 +1386,7 @@ func (p *pinterp) call(fn *ssa.Function, fr *pframe, x *ssa.Call, depth int) {
 			any = true
 		}
 	}
-	if !any {
+	if !any && len(cc.Args) > 0 {
 		return
 	}
 	// the integer content of a list-valued input, as the audited converter (R25: all elements, in order) returns it
@@ -1190,3 +1553,23 @@ func (p *pinterp) shapeList(k int64) ([]pval, bool) {
 	}
 	return l, true
 }
+
+// zeroOf: the zero value of a type, as far as the walk represents it.
+func zeroOf(t types.Type) (pval, bool) {
+	switch u := t.Underlying().(type) {
+	case *types.Basic:
+		switch {
+		case u.Info()&types.IsInteger != 0:
+			return pval{k: pInt}, true
+		case u.Info()&types.IsBoolean != 0:
+			return pval{k: pBool}, true
+		case u.Info()&types.IsString != 0:
+			return pval{k: pStr}, true
+		}
+	case *types.Pointer, *types.Interface, *types.Slice, *types.Map, *types.Signature, *types.Chan:
+		return pval{k: pNil}, true
+	}
+	return pval{}, false
+}
+
+func nonNilKind(k pkind) bool { return k == pNonNil || k == pObj || k == pAbs }
